@@ -1000,3 +1000,73 @@ Example round_ok_nonvacuous :
         [(7, (rules5, [13; 14; 3])); (8, ([], [14; 3]))] [(7, 13); (8, 14); (7, 14)]
   = [([Swap 4; Swap 4; NoSwap], [(7, mkMd [14; 3; 4] [13]); (8, mkMd [3; 4] [14])])].
 Proof. vm_compute; reflexivity. Qed.
+
+(* ------------------------------------------------------------------ *)
+(* rounds one after the other, separated by the round barrier           *)
+
+Definition snap_rel (e : env) (nodes : list N) (p q : N * (list rule * list N)) : Prop :=
+  fst p = fst q /\ fst (snd p) = fst (snd q) /\
+  (NoDup (snd (snd p)) ->
+   NoDup (snd (snd q)) /\ length (snd (snd q)) = length (snd (snd p)) /\
+   (aa_ok (e_md e) (fst (snd p)) (snd (snd p)) -> aa_ok (e_md e) (fst (snd p)) (snd (snd q))) /\
+   (forall x, In x (snd (snd q)) -> In x (snd (snd p)) \/ In x nodes)).
+
+Lemma snap_rel_refl e nodes l : Forall2 (snap_rel e nodes) l l.
+Proof.
+  induction l as [|p l IH]; constructor; [|exact IH].
+  split; [reflexivity|]. split; [reflexivity|]. intros Hn. repeat split; auto.
+Qed.
+
+Lemma snap_rel_trans e nodes : forall a b c,
+  Forall2 (snap_rel e nodes) a b -> Forall2 (snap_rel e nodes) b c -> Forall2 (snap_rel e nodes) a c.
+Proof.
+  intros a b c H. revert c. induction H as [|p q a b Hpq _ IH]; intros c Hbc; inversion Hbc; subst.
+  - constructor.
+  - constructor; [|apply IH; assumption].
+    match goal with H : snap_rel _ _ q _ |- _ => destruct H as (K2 & R2 & G2) end.
+    destruct Hpq as (K1 & R1 & G1).
+    split; [congruence|]. split; [congruence|]. intros Hn.
+    destruct (G1 Hn) as (N1 & L1 & A1 & M1). destruct (G2 N1) as (N2 & L2 & A2 & M2).
+    split; [exact N2|]. split; [congruence|]. split.
+    + intros A. rewrite R1. apply A2. rewrite <- R1. apply A1, A.
+    + intros x Hx. destruct (M2 x Hx) as [H1|H1]; [apply M1, H1|right; exact H1].
+Qed.
+
+Lemma resnap_rel e nodes snap st :
+  Forall2 (fun p q => fst p = fst q /\ entry_good e nodes p (snd q)) snap st ->
+  Forall2 (snap_rel e nodes) snap (resnap snap st).
+Proof.
+  unfold resnap. induction 1 as [|p q snap st H _ IH]; cbn [combine map]; constructor; [|exact IH].
+  destruct H as [K G]. cbn [fst snd]. split; [reflexivity|]. split; [reflexivity|]. exact G.
+Qed.
+
+(* MAIN (several rounds): with the round barrier, after any number of rounds every shard whose ensemble was
+   duplicate-free at the start is still duplicate-free, of the same size, keeps strict anti-affinity, and has only
+   gained cluster servers. *)
+Theorem rounds_ok e nodes : forall reqss snap snap',
+  In snap' (rounds_from e nodes snap reqss) -> Forall2 (snap_rel e nodes) snap snap'.
+Proof.
+  induction reqss as [|reqs reqss IH]; intros snap snap' H; cbn [rounds_from] in H.
+  - destruct H as [<-|[]]. apply snap_rel_refl.
+  - apply in_flat_map in H. destruct H as ([tr st'] & Hr & H). cbn [snd] in H.
+    apply (snap_rel_trans _ _ _ (resnap snap st')).
+    + apply resnap_rel. exact (round_ok _ _ _ _ _ _ Hr).
+    + exact (IH _ _ H).
+Qed.
+
+(* Without the barrier: a second round computed from the SAME snapshot while the swap of the first is still queued.
+   Each proposal is admissible for the snapshot [1;2;3], each passes swapNode's membership check when it is applied,
+   and the result [3;4;5] has servers 4 and 5 in one zone. *)
+Definition md_zone : metadata := [(1, [(10, 1)]); (2, [(10, 2)]); (3, [(10, 3)]); (4, [(10, 4)]); (5, [(10, 4)])].
+Definition strict_zone : list rule := [mkRule [10] Strict].
+
+Lemma rounds_without_barrier_refuted :
+  In (Swap 4) (swap_shard Fixed (mkEnv md_zone strict_zone (Some [4; 5; 3; 2; 1]) (Some 0)) [1; 2; 3; 4; 5] [1; 2; 3] 1) /\
+  In (Swap 5) (swap_shard Fixed (mkEnv md_zone strict_zone (Some [5; 4; 3; 2; 1]) (Some 0)) [1; 2; 3; 4; 5] [1; 2; 3] 2) /\
+  apply_actions Fixed [(7, mkMd [1; 2; 3] [])] [(7, 1, 4); (7, 2, 5)] = [(7, mkMd [3; 4; 5] [1; 2])] /\
+  aa_ok md_zone strict_zone [1; 2; 3] /\ ~ aa_ok md_zone strict_zone [3; 4; 5].
+Proof.
+  split; [vm_compute; auto|]. split; [vm_compute; auto|]. split; [vm_compute; reflexivity|].
+  split; [apply aa_okb_spec; vm_compute; reflexivity|].
+  intros A. apply aa_okb_spec in A. vm_compute in A. discriminate.
+Qed.
